@@ -47,7 +47,7 @@ def enumerate_cases(tier, seed):
         if g.info(s).depth <= maxd:
             cases.append({"id": "expr|" + g.canon(s), "leg": "expr", "spec": s, "x64": True, "seed": seed, "tier": tier})
     cases.append({"id": "classes", "leg": "classes", "x64": True, "seed": seed, "tier": tier})
-    for i in range(8):
+    for i in range(9):
         cases.append({"id": f"dists|{i}", "leg": "dists", "part": i, "x64": True, "seed": seed, "tier": tier})
     for i in range(8):
         cases.append({"id": f"ctor|{i}", "leg": "ctor", "part": i, "x64": True, "seed": seed, "tier": tier})
@@ -218,8 +218,29 @@ def _dists(seed):
         ("Mixture(Normal(2))", D.VmapMixture(eqx.filter_vmap(D.Normal)(jnp.zeros((3, 2)), jnp.ones((3, 2))), jnp.ones(3))),
         ("coupling(2|cond 3)", flows.coupling_flow(k, base_dist=D.StandardNormal((2,)), cond_dim=3, flow_layers=1, nn_width=3)),
         ("maf(3|cond 2)", flows.masked_autoregressive_flow(k, base_dist=D.StandardNormal((3,)), cond_dim=2, flow_layers=1, nn_width=3)),
+        ("UserDist(3|cond 2, own argument names)", _user_dist()),
     ]
     return out
+
+
+def _user_dist():
+    """A user-defined distribution following the documented recipe, with its own (positional) argument names."""
+    import jax.numpy as jnp
+    import jax.random as jr
+
+    import flowjax.distributions as D
+
+    class UserDist(D.AbstractDistribution):
+        shape: tuple = (3,)
+        cond_shape: tuple = (2,)
+
+        def _log_prob(self, value, context=None):
+            return -0.5 * jnp.sum((value - jnp.sum(context)) ** 2)
+
+        def _sample(self, rng, context=None):
+            return jr.normal(rng, (3,)) + jnp.sum(context)
+
+    return UserDist()
 
 
 def _leg_dists(case, add, counters):
